@@ -391,6 +391,10 @@ type Case struct {
 	Prog      *Program
 	Variants  []Variant
 	SymLines  bool
+	// SharedLines (with SymLines): consecutive rendered lines may be written
+	// on one source line (the program must not contain tokens for which a line
+	// break is significant: string literals on adjacent lines, raw blocks)
+	SharedLines bool
 	Oracle    func(x *OracleCtx) *Violation
 	Shape     interface{} // for known-finding predicates
 	MaxPaths  int
@@ -510,7 +514,7 @@ func (w *Worker) RunCase(cs *Case, rep *Report) {
 		x := &OracleCtx{W: w, C: c, Case: cs, Src: srcOf[cs.Prog], NLines: nlines, Res: map[string]*CompileResult{}}
 		var lineMap func(int) interp.Value
 		if cs.SymLines {
-			lineMap, x.Lines, x.NTerm = SymLines(c, nlines)
+			lineMap, x.Lines, x.NTerm = SymLines(c, nlines, cs.SharedLines)
 		}
 		if cs.Setup != nil {
 			cs.Setup(x)
@@ -725,8 +729,12 @@ func (w *Worker) Replay(cs *Case, values map[int]string, srcOf map[*Program]stri
 						}
 						sb.WriteString(ls[k-1])
 						if k < len(ls) {
-							sb.WriteString("\n")
-							cur++
+							if k+1 <= nlines && k+1 < len(lv) && lv[k+1] == lv[k] && cur == lv[k] {
+								sb.WriteString(" ") // the next rendered line is on the same source line
+							} else {
+								sb.WriteString("\n")
+								cur++
+							}
 						}
 					}
 					return sb.String()
